@@ -575,6 +575,41 @@ def build_policy(ast):
     return policy.build(ast)
 
 
+class VfRes:
+    def __init__(self, step, serial):
+        self.step, self.serial = step, serial
+
+
+def _make_factory(rs, step):
+    """resource factory of one step: async (really suspends for `delay`) or sync; the first `raise_first` calls raise
+    RuntimeError(`msg`) -- an exception raised AROUND the step body, not inside it"""
+    calls = {"n": 0}
+
+    def _enter():
+        calls["n"] += 1
+        REC.add("res_enter", step=step, n=calls["n"])
+        return calls["n"]
+
+    def _finish(n):
+        if n <= rs.get("raise_first", 0):
+            REC.add("res_raise", step=step, n=n)
+            raise RuntimeError(rs.get("msg", "resource factory failed"))
+        REC.add("res_ready", step=step, n=n)
+        return VfRes(step, n)
+
+    if rs.get("kind", "async") == "async":
+        async def factory():
+            n = _enter()
+            if rs.get("delay"):
+                await asyncio.sleep(rs["delay"])
+            return _finish(n)
+    else:
+        def factory():
+            return _finish(_enter())
+    factory.__qualname__ = f"vf_res_{step}"
+    return factory
+
+
 def build_workflow(spec):
     """Return a fresh Workflow subclass implementing the program spec."""
     from vf import events as E
@@ -597,6 +632,13 @@ def build_workflow(spec):
         ret_types = [E.BY_NAME[t] for t in prod] + [type(None)]
 
         def make(sp_):
+            if sp_.get("res"):
+                # a resource injected into the step (Annotated[VfRes, Resource(factory)]): resolved by the engine around the body
+                async def fn(self, ctx, ev, res):
+                    REC.add("res_got", step=sp_["name"], serial=getattr(res, "serial", None))
+                    return await _interp(ctx, ev, sp_, spec)
+
+                return fn
             if sp_.get("sync"):
                 # plain `def` step: the engine runs it in the default thread pool
                 def fn(self, ctx, ev):
@@ -617,6 +659,10 @@ def build_workflow(spec):
         fn.__name__ = name
         fn.__qualname__ = f"VfProgram.{name}"
         fn.__annotations__ = {"ctx": (Context[VfState] if spec.get("typed_state") else Context), "ev": _union(in_types), "return": _union(ret_types)}
+        if sp.get("res"):
+            from workflows.resource import Resource
+
+            fn.__annotations__["res"] = typing.Annotated[VfRes, Resource(_make_factory(sp["res"], name), cache=bool(sp["res"].get("cache", True)))]
         if is_handler:
             h = sp["handler"]
             fn = catch_error(for_steps=h.get("for"), max_recoveries=h.get("max", 1))(fn)
